@@ -135,6 +135,8 @@ class DelegWorld(EnvelopeWorld):
         if self.run.stop:
             return
         for name, args, kw in (("checkformat_delegating_metadata", (T2,), {}), ("verify_delegation", (role, E, T2), {"gpg": gpg})):
+            if not self.calls._preflight(name, args, kw):
+                return
             fresh = self.calls.fresh_outcome(name, args, kw)
             o2 = self.calls.raw(name, *args, **kw)
             mine = (o2.ok, "return" if o2.ok else o2.cls)
